@@ -18,7 +18,7 @@ PLAN  = {"quick":    {"shards": 16, "cases": 240000, "timeout": 600,  "budget_s"
          "thorough": {"shards": 16, "cases": 4000000, "timeout": 3000, "budget_s": 1200}}
 REQUIRED = ["oracle.where", "oracle.where.indexed", "oracle.where.scan", "oracle.groupby", "oracle.index",
             "contract.index.rows_preserved", "contract.insert.columns_equal_length", "oracle.where.view", "oracle.lazy-resort",
-            "oracle.alias.copies-kept", "oracle.alias.switches", "oracle.alias.query-after-switch"]
+            "oracle.alias.copies-kept", "oracle.alias.switches", "oracle.alias.query-after-switch", "oracle.where.str-in-arg"]
 ASSUMPTIONS = [
     "ordering comparisons on Missing cells are only checked differentially (indexed path == scan path, neither raises)",
     "columns holding real None are never indexed; arguments are of the column's own kind (no str-vs-int comparisons)",
@@ -191,6 +191,10 @@ def gen_where(rng, cols, kinds, none_cols):
             conds = [c if rng.random() < .5 else dict(gen_cond_fixed(rng, c["col"], kinds[c["col"]], rng.choice(["=", "in"])), plain=True) for c in conds]
         if form == "callable":
             conds = [gen_cond_fixed(rng, c["col"], kinds[c["col"]], rng.choice(["=", "in", "!in", "!="])) for c in conds]
+        # a str argument of an explicit in / !in: membership in a string is Python's substring test (what the row-by-row evaluation does)
+        for c in conds:
+            if c["op"] in ("in", "!in") and kinds[c["col"]] == "str" and not c.get("plain") and form in ("positional", "keyword", "dict", "mixed") and rng.random() < .15:
+                c["arg"] = "".join(str(a) for a in c["arg"] if a is not None) + rng.choice(["", "a", "ab"])
         chain.append({"form": form, "conds": conds})
     return {"op": "where", "chain": chain}
 
@@ -389,6 +393,12 @@ def check_case(spec, ctx=None):
                         bad = sync_order("where")
                         if bad: viol.append(bad); return viol
                         cur_rows = rows
+                    if step["form"] != "rowpred" and any(isinstance(c["arg"], str) and c["op"] in ("in", "!in") for c in step["conds"]):
+                        # substring semantics are defined between strings only ('None in "ab"' raises in any evaluation)
+                        ci = {c_: i_ for i_, c_ in enumerate(cols)}
+                        if any(not isinstance(r_[ci[c["col"]]], str) for c in step["conds"] if isinstance(c["arg"], str) and c["op"] in ("in", "!in") for r_ in cur_rows):
+                            note("oracle.where.str-in-arg.skipped-non-str-cells"); break   # (the rest of the chain is not judged)
+                        note("oracle.where.str-in-arg")
                     exp, unspec = model_where(cur_rows, cols, step)
                     feat = _features(step, cols, indexes, cur_rows, depth, kinds, Missing)
                     note("oracle.where"); note("oracle.where.indexed" if feat["indexed"] else "oracle.where.scan")
@@ -456,13 +466,14 @@ def _features(step, cols, indexes, rows, depth, kinds, Missing):
     dup   = any(isinstance(c["arg"], list) and len(set(map(repr, c["arg"]))) < len(c["arg"]) for c in conds)
     empty = not rows
     mixedops = len(ops) > 1
-    flags = [n for n, on in (("missing-cells", miss), ("none-arg", nonearg), ("dup-arg", dup), ("empty-table", empty),
+    strin = any(isinstance(c["arg"], str) and c["op"] in ("in", "!in") for c in conds)
+    flags = [n for n, on in (("missing-cells", miss), ("none-arg", nonearg), ("dup-arg", dup), ("str-arg-of-in", strin), ("empty-table", empty),
                              ("multi-kw", len(conds) > 1), ("on-view", depth > 1)) if on]
     # mechanism-level signature: operator(s), argument form class, path, and only the special features that are present
     fclass = {"positional": "comparison-arg", "keyword": "comparison-arg", "dict": "dict", "default": "default", "callable": "callable", "mixed": "mixed-dict-and-plain"}[step["form"]]
     sig = f"op={'+'.join(ops)}/form={fclass}/path={'indexed' if idx else 'scan'}" + "".join(f"/{f}" for f in flags)
     ck = tuple(sorted(kinds[c["col"]] for c in conds))
-    return {"indexed": idx, "sig": sig, "sigkey": (tuple(ops), step["form"], idx, len(conds), miss, nonearg, dup, depth > 1, ck)}
+    return {"indexed": idx, "sig": sig, "sigkey": (tuple(ops), step["form"], idx, len(conds), miss, nonearg, dup, depth > 1, ck) + (("str-in",) if strin else ())}
 
 # ------------------------------------------------------------------------------------------ entry points
 def _repo_tests_under_contracts(ctx):
